@@ -5,8 +5,6 @@
    request/response cycle against the publisher's GetBlocksMessage.process *)
 Definition eqb_trace (a b : list (Z * list reply)) : bool :=
   eqb_list (fun x y => (fst x =? fst y) && eqb_list eqb_reply (snd x) (snd y)) a b.
-Definition sync_case := (bool * Z * list (list dblock) * list (Z * list reply) * list Z * list bool *
-                         list (list dblock) * list (Z * list reply) * list Z)%type.
 Definition corr_sync (c : sync_case) : bool :=
   let '(f1, reqn, sched, tr, ids, sigs, re, tr2, ids2) := c in
   let '(held, mtr) := run f1 reqn [] sched in
